@@ -44,8 +44,8 @@ def attr_list(schema, inst, pi):
 
 
 WRONG = {   # attribute kind -> [(label, replacement value)] : literals of a kind the attribute can never take
-    'INTEGER': [('string', ('str', 'x')), ('enum', ('enum', 'RED')), ('aggregate', ('agg', [('int', 1)]))],
-    'REAL': [('string', ('str', 'x')), ('enum', ('enum', 'T')), ('binary', ('bin', '1F'))],
+    'INTEGER': [('string', ('str', 'x')), ('enum', ('enum', 'RED')), ('aggregate', ('agg', [('int', 1)])), ('real', ('real', 1.5, '1.5'))],
+    'REAL': [('string', ('str', 'x')), ('enum', ('enum', 'T')), ('binary', ('bin', '1F')), ('integer', ('int', 2))],
     'NUMBER': [('string', ('str', 'x')), ('enum', ('enum', 'T'))],
     'STRING': [('integer', ('int', 5)), ('real', ('real', 1.5, '1.5')), ('enum', ('enum', 'RED')), ('reference', ('raw', '#REF'))],
     'BINARY': [('integer', ('int', 5)), ('string', ('str', 'x'))],
@@ -170,12 +170,32 @@ def all_mutants(schema, pop, rng, per_class=2):
                         add(Mut('reference to instance of wrong type', kd + cx, inst.id, _replace(insts, inst.id, pi, j, ('ref', bad[0])),
                                 'attribute %d of %s (%s) -> #%d' % (j, kw, a.type.name, bad[0]), pos=pos))
                 at = schema.underlying(a.type) if kd == 'aggregate' else None
-                if kd == 'aggregate' and v[0] == 'agg' and at.elem.kind == 'entity' and v[1]:
-                    v2 = ('agg', [('ref', fresh_id)] + list(v[1][1:]))
-                    add(Mut('reference to missing instance', 'aggregate of entity' + cx, inst.id, _replace(insts, inst.id, pi, j, v2), 'element 0 of attribute %d of %s' % (j, kw), pos=pos))
-                if kd == 'aggregate' and v[0] == 'agg' and v[1] and at.elem.kind in ('INTEGER', 'REAL'):
-                    v2 = ('agg', [('str', 'x')] + list(v[1][1:]))
-                    add(Mut('wrong literal kind: string', 'aggregate of %s' % at.elem.kind + cx, inst.id, _replace(insts, inst.id, pi, j, v2), 'element 0 of attribute %d of %s' % (j, kw), pos=pos))
+                if kd == 'aggregate' and v[0] == 'agg' and v[1] and at.elem.kind != 'aggr':
+                    # the same classes one level down: every element position (first / middle / last) of an aggregate, by element kind
+                    ek = kind_of(schema, at.elem)
+                    n_el = len(v[1])
+                    for epos, ename in sorted(set([(0, 'first'), (n_el // 2, 'middle'), (n_el - 1, 'last')])):
+                        if v[1][epos] == ('null',):
+                            continue
+
+                        def at_elem(rep, epos=epos):
+                            return _replace(insts, inst.id, pi, j, ('agg', list(v[1][:epos]) + [rep] + list(v[1][epos + 1:])))
+                        where = 'element %d (%s of %d) of attribute %d of %s' % (epos, ename, n_el, j, kw)
+                        for lab, rep in WRONG.get(ek, []):
+                            if rep == ('raw', '#REF'):
+                                rep = ('ref', ids[0])
+                            if lab == 'aggregate':
+                                continue    # an aggregate inside a flat aggregate is a parameter-count matter for some readers: not judged here
+                            add(Mut('wrong literal kind: %s' % lab, 'aggregate of %s' % ek + cx, inst.id, at_elem(rep), where + ' given %r' % (rep,), pos=pos))
+                        if ek == 'enum':
+                            add(Mut('undeclared enumeration item', 'aggregate of enum' + cx, inst.id, at_elem(('enum', 'NOSUCHITEM')), where, pos=pos))
+                        if ek == 'entity' and v[1][epos][0] == 'ref':
+                            add(Mut('reference to missing instance', 'aggregate of entity' + cx, inst.id, at_elem(('ref', fresh_id)), where, pos=pos))
+                            bad = [x for x in ids if at.elem.name not in member[x] and x != inst.id]
+                            bad = [x for x in bad if not any(schema.is_a(n, at.elem.name) for n in member[x])]
+                            if bad:
+                                add(Mut('reference to instance of wrong type', 'aggregate of entity' + cx, inst.id, at_elem(('ref', bad[0])),
+                                        where + ' (%s) -> #%d' % (at.elem.name, bad[0]), pos=pos))
                 if kd == 'select' and v[0] == 'typed':
                     add(Mut('select keyword outside select list', kd + cx, inst.id, _replace(insts, inst.id, pi, j, ('typed', 'NOSUCHTYPE', v[2])), 'attribute %d of %s' % (j, kw), pos=pos))
         # --- entity keyword faults (simple instances)
@@ -377,12 +397,14 @@ def matrix_schema():
     kinds = [('int', M.INT()), ('real', M.REAL()), ('num', M.T('NUMBER')), ('str', M.STR()), ('bin', M.T('BINARY')), ('bool', M.T('BOOLEAN')),
              ('logi', M.T('LOGICAL')), ('enum', M.NAMED('colour')), ('ent', M.ENT('tgt')), ('agg', M.AGG('LIST', M.INT(), 0, None)),
              ('aopt', M.AGG('ARRAY', M.INT(), 1, 2, optional=True)),   # ARRAY OF OPTIONAL: the ELEMENTS are optional, the attribute is not
+             ('agr', M.AGG('LIST', M.REAL(), 1, None)), ('ags', M.AGG('SET', M.STR(), 1, None)), ('agb', M.AGG('BAG', M.T('BOOLEAN'), 1, None)),
+             ('agn', M.AGG('LIST', M.NAMED('colour'), 1, None)), ('age', M.AGG('SET', M.ENT('tgt'), 1, None)), ('aga', M.AGG('ARRAY', M.REAL(), 1, 3)),
              ('sel', M.NAMED('sel1'))]
     ents = [M.Entity('tgt', attrs=[M.Attr('n', M.INT())])]
     for nm, t in kinds:
         ents.append(M.Entity('r_' + nm, attrs=[M.Attr('a_' + nm, M.INT()), M.Attr('z_' + nm, t)]))
         ents.append(M.Entity('o_' + nm, attrs=[M.Attr('b_' + nm, M.INT()), M.Attr('y_' + nm, t, True)]))
-        if nm != 'ent':
+        if nm not in ('ent', 'age'):
             ents.append(M.Entity('s_' + nm, attrs=[M.Attr('x_' + nm, t)]))          # single required attribute: E() is "too few"
             ents.append(M.Entity('so_' + nm, attrs=[M.Attr('w_' + nm, t, True)]))
     ents += [M.Entity('cx', sexpr=('andor', ('andor', ('leaf', 'cx1'), ('leaf', 'cx2')), ('leaf', 'cx3')), attrs=[M.Attr('c0', M.INT())]),
